@@ -190,6 +190,82 @@ pub fn rxrules_suite(with_glob: bool) -> Simple {
     }
 }
 
+/// `apply_regex` of the pattern-rule engines: rules applied in file order, each replacing all its non-overlapping matches
+/// once. The request compares the parsed rules with the model (as `rxrules`); the oracle then folds over those rules with
+/// the regex crate itself (the parameter of the model) and the model's template expansion, and compares with what
+/// `apply_regex` returns for the payload.  a[0] = rule file, a[1] = payload
+pub fn rxapply_suite(with_glob: bool) -> Simple {
+    fn parse(file: &[u8], with_glob: bool) -> Option<(Vec<(regex::bytes::Regex, Vec<u8>, bool)>, Box<dyn Fn(Vec<u8>) -> Vec<u8>>)> {
+        let p = scratch_file("rxapply");
+        std::fs::write(&p, file).unwrap();
+        if with_glob {
+            match blob_regex::RegexReplacer::from_file(&p) { Ok(Some(r)) => { let rules = r.rules.clone(); Some((rules, Box::new(move |d| r.apply_regex(d)))) } _ => None }
+        } else {
+            match msg_regex::RegexReplacer::from_file(&p) { Ok(Some(r)) => { let rules = r.rules.clone(); Some((rules, Box::new(move |d| r.apply_regex(d)))) } _ => None }
+        }
+    }
+    Simple {
+        eval: Box::new(move |a: &Args| {
+            let req = format!("rxrules2 {} {}", enc_bool(with_glob), enc(&a[0]));
+            let c = a[0].clone();
+            (req, guarded(move || match parse(&c, with_glob) { Some((rules, _)) => rx_rules_reply(&rules, with_glob), None => "-".into() }))
+        }),
+        oracle: Box::new(move |a: &Args, r: &str, m: &mut Model| {
+            if r == "panic" { return Some("rule parsing panicked".into()); }
+            let (rules, apply) = parse(&a[0], with_glob)?;
+            let payload = a[1].clone();
+            let got = match std::panic::catch_unwind(std::panic::AssertUnwindSafe(|| apply(payload.clone()))) { Ok(v) => v, Err(_) => return Some("apply_regex panicked".into()) };
+            let mut cur = payload.clone();
+            for (re, rep, dollar) in &rules {
+                let mut out: Vec<u8> = Vec::with_capacity(cur.len());
+                let mut last = 0usize;
+                for caps in re.captures_iter(&cur) {
+                    let m0 = caps.get(0).unwrap();
+                    out.extend_from_slice(&cur[last..m0.start()]);
+                    if *dollar {
+                        let groups: Vec<String> = (0..caps.len()).map(|i| match caps.get(i) { Some(g) => enc(g.as_bytes()), None => "none".into() }).collect();
+                        let reply = m.ask(&format!("expand {} {}", enc(rep), groups.join(",")));
+                        out.extend_from_slice(&crate::wire::dec(&reply).unwrap_or_default());
+                    } else {
+                        out.extend_from_slice(rep);
+                    }
+                    last = m0.end();
+                }
+                out.extend_from_slice(&cur[last..]);
+                cur = out;
+            }
+            if cur != got {
+                Some(format!("the pattern rules applied in file order, each replacing all its non-overlapping matches once, turn {:?} into {:?}; apply_regex returns {:?}",
+                    String::from_utf8_lossy(&payload), String::from_utf8_lossy(&cur), String::from_utf8_lossy(&got)))
+            } else { None }
+        }),
+        shrinkable: vec![false, true],
+        labels: vec!["rule_file", "data"],
+    }
+}
+
+fn rxapply_case(rng: &mut Rng, with_glob: bool) -> Args {
+    const PATS: &[&str] = &["^$", "x*", "a+", "(a)(b)?", "[0-9]+", "^", "$", "\\bfoo\\b", "(?m)^#.*$", ".", "(?s).*", "(foo)|(bar)", "\\s+", "secret[0-9]*", "a|ab", "(?i)token"];
+    const REPS: &[&str] = &["", "X", "# intentionally left blank", "$1", "<$1|$2>", "$$", "$0", "a", "aa", "$1$1", "***REMOVED***", "x$", "$9"];
+    const GLOBS: &[&str] = &["*", "", "*.txt", "a?c", "se*t", "?", "foo*bar", "*a*"];
+    const DATA: &[&str] = &["", "", "a", "ab", "aab\n", "foo bar foo", "# c\nx\n", "123 abc 45", "\n", "secret.txt", "secret42 token TOKEN", "abcabc", "xxx", "aaa", " \t ", "foo"];
+    let mut file = String::new();
+    for _ in 0..(1 + rng.below(3)) {
+        if with_glob && rng.chance(1, 3) {
+            file.push_str(&format!("glob:{}==>{}\n", rng.pick(GLOBS), rng.pick(&REPS[..3])));
+        } else if rng.chance(1, 8) {
+            file.push_str(&format!("{}==>{}\n", rng.pick(&["a", "foo", "secret"][..]), rng.pick(&REPS[..3])));      // a literal rule in between: not part of apply_regex
+        } else if rng.chance(1, 10) {
+            file.push_str(&format!("regex:{}\n", rng.pick(PATS)));                                                    // no ==>: the default replacement
+        } else {
+            file.push_str(&format!("regex:{}==>{}\n", rng.pick(PATS), rng.pick(REPS)));
+        }
+    }
+    let mut data = rng.pick(DATA).to_string();
+    if rng.chance(1, 4) { let extra: &str = *rng.pick(DATA); data.push_str(extra); }
+    vec![file.into_bytes(), data.into_bytes()]
+}
+
 pub fn apply_suite() -> Simple {
     Simple {
         eval: Box::new(|a: &Args| {
@@ -244,6 +320,35 @@ pub fn run_rules(tier: &str, seed: u64, model: &mut Model) -> Vec<Suite> {
         rep.dist.insert("rejected-by-the-code-not-compared".into(), skipped);
         let mut it = cases.into_iter();
         run_suite(&def, &mut it, model, &mut rep);
+        out.push(rep);
+    }
+    // pattern rules applied to payloads (the fold of apply_regex; the regex crate itself is the parameter)
+    for with_glob in [true, false] {
+        let k = if tier == "thorough" { 40_000 } else { 4_000 };
+        let mut rep = Suite::new(if with_glob { "rxapply-blob" } else { "rxapply-msg" }, &format!("{k} (rule file, payload) pairs for blob_regex / msg_regex ::RegexReplacer::apply_regex: one to three regex:/glob: rules from pools that include patterns matching the empty string (^$, x*, ^, $, glob:*, the empty glob), templates with $1 $2 $$ $0 $9, a rule without ==>, literal rules in between; payloads include the empty one, whitespace only, and texts a rule empties for the next rule. The parsed rules are compared with the model; the oracle folds over them with the regex crate and the model's template expansion and compares with apply_regex. Non-trivial: the payload changes."));
+        let def = rxapply_suite(with_glob);
+        let mut cases = Vec::new();
+        let mut r2 = Rng::new(seed ^ if with_glob { 0xA991 } else { 0xA992 });
+        for _ in 0..k {
+            let a = rxapply_case(&mut r2, with_glob);
+            let nt = { let p = scratch_file("rxapply-nt"); std::fs::write(&p, &a[0]).unwrap();
+                if with_glob { blob_regex::RegexReplacer::from_file(&p).ok().flatten().map(|r| r.apply_regex(a[1].clone()) != a[1]).unwrap_or(false) }
+                else { msg_regex::RegexReplacer::from_file(&p).ok().flatten().map(|r| r.apply_regex(a[1].clone()) != a[1]).unwrap_or(false) } };
+            if a[1].is_empty() { rep.count("empty-payload"); }
+            cases.push((a, nt));
+        }
+        let kept: Vec<Args> = cases.iter().map(|c| c.0.clone()).collect();
+        let mut it = cases.into_iter();
+        run_suite(&def, &mut it, model, &mut rep);
+        // the oracle is the check here (the request only compares the parsed rules): evaluate it on every case
+        for a in &kept {
+            let (_, r) = (def.eval)(a);
+            if let Some(detail) = (def.oracle)(a, &r, model) {
+                if rep.oracle_failures.len() < 5 {
+                    rep.oracle_failures.push(serde_json::json!({"input": crate::runner::SuiteDef::describe(&def, a), "impl": r, "property_failure": detail}));
+                } else { rep.count("further-oracle-failures-not-listed"); }
+            }
+        }
         out.push(rep);
     }
     // apply
